@@ -1,5 +1,7 @@
 import Pm.ClientStream
 import Pm.TablesCheck
+import Pm.StreamWhole
+import Pm.StreamReplace
 /-! # C15 — what powermand writes to a client is a grammatical stream of protocol lines
 
 "Everything powermand writes to a client is a sequence of CRLF-terminated lines `NNN text` with NNN among the documented
@@ -10,20 +12,39 @@ The structure of the output is made explicit by `render : List Item → Bytes` (
 `Item.prompt` ↦ `powerman> `): every function of `client.c` that appends to a client's `to` buffer is shown to append
 `render items` for an item list of the right shape.  An item is a *single* protocol line only if its text is `clean`
 (contains neither CR nor LF); lines with fixed text are proved clean, lines that embed data (node names, host ranges,
-device names, captured device text) are clean when the embedded data is.  That is where the property is genuinely open:
+device names, captured device text) are clean when the embedded data is.  That is where the property was open for the
+per-step theorems of the first sections:
 
-* known finding F16 — a `303` line of a temperature reply embeds the captured device text raw (`C15_stream_counterexample`);
-* the ranged strings come out of `hostlist_sort` + `hostlist_ranged_string`, whose output alphabet is not characterised here
-  (the sort mirror is total and proved to permute the names, `Props/C14.lean`, but no lemma yet says its strings are clean);
+* known finding F16 — a `303` line of a temperature reply embedded the captured device text raw (fixed: `C15_stream_f16_fixed`);
+* the ranged strings come out of `hostlist_sort` + `hostlist_ranged_string`, whose output alphabet those sections do not
+  characterise;
 * the telemetry line passes through `String.replace` (substitution of the device name).
 
-So the preservation theorems carry the hypothesis "the data-carrying lines of this step are clean" and are named
-`…_partial`.  Helper lemmas: `Pm/ClientProof.lean`, `Pm/ClientStream.lean`.
+So the per-step preservation theorems of the first sections carry the hypothesis "the data-carrying lines of this step are
+clean" and are named `…_partial`.  Helper lemmas: `Pm/ClientProof.lean`, `Pm/ClientStream.lean`.
+
+The last section ("whole runs") closes these gaps and does the induction over runs.  With a ghost history of what every pass handed to `write(2)`
+(`histOf`), the per-client invariant `SInv` is shown to hold for every client of every world reachable from start-up by
+any list of pass inputs (`C15_run`, no hypothesis about data), and — the configuration being free of CR/LF (`Good`, which
+the run preserves) — every line of every stream is a clean protocol line (`C15_run_clean`, `C15_run_streamOK`), the `305`
+telemetry line included, whose text goes through `String.replace` (`C15_replace_clean`).  What was written to the
+descriptor of a client that is gone is covered too (`C15_run_departed`).  The hostlist mirror's alphabet is characterised
+on the way (`C15_ranged_string_clean`, `C15_sort_clean`, `C15_request_names_clean`).
+Helper lemmas: `Pm/StreamClean.lean`, `StreamLine.lean`, `StreamRun.lean`, `StreamDev.lean`, `StreamCount.lean`,
+`StreamWhole.lean`, `StreamReplace.lean`.
 
 Ranking: shape of every immediate reply (done) ▸ banner (done) ▸ shape of the completion path (done) ▸ device payloads:
 `dbg_memstr` printable (done), `setresult` diagnostic cut at CR/LF (done), raw capture in `303` (counterexample, F16) ▸
-stream grammar preserved by every step of a client's share of a pass (done, `_partial`) ▸ the inductive statement over
-whole runs with the bytes written in earlier passes (not done: needs a ghost history of `write(2)` per client). -/
+stream grammar preserved by every step of a client's share of a pass (done) ▸ the inductive statement over whole runs with
+the bytes written in earlier passes (done: `C15_run`) ▸ cleanliness of the data-carrying lines through the hostlist
+mirror and through `String.replace` (done: `C15_run_clean`) ▸ no telemetry/diagnostic line for an idle client (done:
+the ledger between device queues and `pending`, `C15_ledger`; so `AtPrompt` is "the stream ends with the prompt").
+
+The proviso of the property ("as long as unsent output stays below the 1 MiB buffer") is carried by the *model*, not by
+the theorems: `put` appends to an unbounded `toBuf`, the model never drops a byte queued for a client, so the theorems
+need no such hypothesis.  In C `_client_printf` → `cbuf_write(c->to, …, &dropped)` overwrites the oldest unsent bytes once
+`to` has reached `MAX_CLIENT_BUF` (and logs "dropped %d chars"): there the stream loses bytes from its middle and model and
+code part ways.  (The overflow theorems of `Props/C09` are about the *input* buffers.) -/
 namespace Pm.Props.C15
 open Pm Pm.Daemon Pm.Client Pm.Daemon.ClientPf
 
@@ -59,7 +80,7 @@ theorem C15_streamOK_wf (bytes : Bytes) (h : StreamOK bytes) :
     string, then the prompt — and nothing else happens to the client list there (the per-client handling follows) -/
 theorem C15_banner (w : W) (envs : List FdEnv) :
     cliPostPoll w 1 envs =
-      (cliAccept { w with sys := [], caps := envs.map fun (e : FdEnv) => (e.fd, e.cap) } 1).clients.foldl (cliStep envs)
+      (cliAccept { w with sys := [], caps := envs.map fun (e : FdEnv) => (e.fd, e.cap) } 1).clients.foldl (ClientPf.cliStep envs)
         (cliAccept { w with sys := [], caps := envs.map fun (e : FdEnv) => (e.fd, e.cap) } 1) ∧
     (cliAccept w 1).clients = w.clients ++ [newClient w] ∧
     (newClient w).toBuf = render [Item.line 1 w.cfg.version, Item.prompt] ∧
@@ -197,5 +218,242 @@ theorem C15_stream_f16_fixed :
     whole table), and the reply texts the model writes are those of the header. -/
 theorem C15_proto_table_wf : Pm.Generated.protoTable.all (fun p => Pm.TablesCheck.fmtOK p.1 p.2) = true := Pm.TablesCheck.proto_wf
 theorem C15_proto_table_nonempty : (Pm.Generated.protoTable.filter fun p => Pm.TablesCheck.isReply p.1).length ≥ 25 := Pm.TablesCheck.proto_replies_present
+
+
+/-! ## whole runs
+
+`streamOf w0 ss c` is everything ever queued for client `c` when the passes `ps` have run from the start-up world `w0`:
+what earlier passes handed to `write(2)` on its descriptor (`histOf`, a ghost record — the system-call log `w.sys` is
+reset at the beginning of every pass), what the last pass wrote, and what still waits in `to`. -/
+
+open Pm.Daemon.StreamPf
+
+/-- a run without regex answers is a run of `runPasses` -/
+theorem C15_run_plain (w : W) (ps : List PassIn) : runX w (ps.map fun p => ([], p)) = runPasses w ps := runX_plain w ps
+
+/-- the ghost record is empty at start-up and grows, when a pass begins, by what the log of the world says was written -/
+theorem C15_history (w0 : W) (ss : List Step) (p : Step) (fd : Nat) :
+    histOf w0 [] fd = [] ∧ histOf w0 (ss ++ [p]) fd = histOf w0 ss fd ++ written (runX w0 ss).sys fd :=
+  ⟨rfl, histOf_snoc w0 ss p fd⟩
+
+/-- The *strict* recogniser `trun` accepts `001 prompt ((3xx|208)* terminal prompt)* (3xx|208)*`: every terminal line
+    (other than 208) is followed at once by the prompt.  It is the language of a client that has not quit; the lax
+    recogniser `srun`/`wfStream` above also covers replies without prompt (after `quit` or end of file). -/
+example : strictStream [.line 1 (bstr "2.4.4"), .prompt, .line 306 (bstr "t[1-2]"), .line 103 (bstr "Query complete"), .prompt,
+    .line 208 (bstr "Command in progress"), .line 305 (bstr "send(d): 'on 1\\n'"), .line 102 (bstr "Command completed successfully"),
+    .prompt] = true := by decide
+/-- a terminal line without prompt: lax yes, strict no -/
+example : wfStream [.line 1 [], .prompt, .line 103 [], .line 103 []] = true ∧
+    strictStream [.line 1 [], .prompt, .line 103 [], .line 103 []] = false := by decide
+/-- stopping directly after a terminal line is not a state of a client that has not quit -/
+example : strictStream [.line 1 [], .prompt, .line 103 []] = false := by decide
+/-- the strict language is contained in the lax one -/
+theorem C15_strict_lax (items : List Item) (h : strictStream items = true) : wfStream items = true := by
+  have h : trun .start items = some .open := by simpa [strictStream] using h
+  have h2 : srun .start items = some .noPrompt := trun_lax .start items .open h
+  simp [wfStream, h2]
+
+/-- **C15 over whole runs — structure.**  From start-up (no client, no client's action queued, id counter positive, empty log, no connection accepted yet), after
+    any number of passes with any kernel answers (connections, reads, writes, short writes, errors, device traffic, regex
+    answers, timeouts), for every client `c` of the world reached, everything ever queued for `c` is `render items` for an
+    item list that
+
+    * the recogniser accepts: `001` banner, prompt, then lines with documented codes, a prompt only directly after a terminal
+      line other than 208;
+    * as long as the client has not quit (`quit` command, end of file, i/o error) even the strict recogniser accepts, in the
+      state where no prompt is owed: every terminal line so far was followed at once by the prompt;
+    * ends with the prompt when the client is idle and has not quit (`AtPrompt`): the server is waiting for a request and
+      has said so — in particular no `305`/`309` line of a device callback came after that prompt (`C15_ledger`).
+
+    No hypothesis about configuration data or device behaviour.  (Lines are *items* here; that the text of an item contains
+    no CR/LF, so that the items are the lines a reader of the bytes sees, is `C15_run_clean`.) -/
+theorem C15_run (w0 : W) (hs : Startup w0) (ss : List Step) (c : Cli) (hc : c ∈ (runX w0 ss).clients) :
+    ∃ items, streamOf w0 ss c = render items ∧ wfStream items = true ∧
+      (c.quit = false → strictStream items = true) ∧ AtPrompt c items := by
+  obtain ⟨items, e, ⟨s, h1, _⟩, h2, h3, _⟩ := stream_run False w0 hs (fun h => h.elim) ss c hc
+  exact ⟨items, e, by simp [wfStream, h1], fun hq => by simp [strictStream, h2 hq], h3⟩
+
+/-- **C15 over whole runs — every line is a line.**  If in addition the static data of the start-up world is free of CR/LF
+    (`Good`: version string, configured node names — the node list being in the shape the hostlist constructors produce —,
+    alias hosts, device names, nodes wired to plugs, specification names), then every item of every client's stream is a
+    clean protocol line `NNN␠text CRLF` with no CR/LF inside `text`, and the target names of a command in progress are
+    clean.  This covers the lines that embed data: `304`, `306`, `307` (configured names through `hostlist_sort` and
+    `hostlist_ranged_string`), `209` (names out of the request, through `sscanf %s` and `hostlist_create`), `302`/`303`
+    (targets of the command; captured device values cut at CR/LF), `308` (device names), `309` (plug nodes; captured text
+    cut at CR/LF), `305` (`dbg_memstr` output, decimal numbers, fixed text, then `String.replace`). -/
+theorem C15_run_clean (w0 : W) (hs : Startup w0) (hg : Good w0) (ss : List Step) (c : Cli) (hc : c ∈ (runX w0 ss).clients) :
+    ∃ items, streamOf w0 ss c = render items ∧ wfStream items = true ∧
+      (c.quit = false → strictStream items = true) ∧ AtPrompt c items ∧ (∀ i ∈ items, i.clean = true) ∧ CmdClean c := by
+  obtain ⟨items, e, ⟨s, h1, _⟩, h2, h3, h4⟩ := stream_run True w0 hs (fun _ => hg) ss c hc
+  exact ⟨items, e, by simp [wfStream, h1], fun hq => by simp [strictStream, h2 hq], h3,
+    fun i hi => ((h4 trivial).1 i hi).2 replaceClean, (h4 trivial).2⟩
+
+/-- `String.replace` (which puts the device name into a telemetry text) creates no CR/LF: decoding, replacing and encoding
+    again gives bytes of the text and of the name (and the parentheses) only -/
+theorem C15_replace_clean (name t : Bytes) (hn : cleanText name = true) (ht : cleanText t = true) :
+    cleanText (teleText name t) = true :=
+  replaceClean name t hn ht
+
+/-- Hence, in the terms of the per-step theorems above: every client's cumulative output is `StreamOK` -/
+theorem C15_run_streamOK (w0 : W) (hs : Startup w0) (hg : Good w0) (ss : List Step) (c : Cli)
+    (hc : c ∈ (runX w0 ss).clients) : StreamOK (streamOf w0 ss c) :=
+  (stream_run True w0 hs (fun _ => hg) ss c hc).streamOK replaceClean
+
+/-- a concrete run: `A` with plug `1` ↦ `a1`; client 1 connects, is sent the banner, asks `nodes` and `help` in one read and
+    is sent the replies in the next pass; client 2 connects, its descriptor takes 7 bytes, it asks `status a1` (accepted:
+    a command is in progress), then `quit` and `nodes` (both answered `208`).  The hypotheses hold, … -/
+example : Startup Ex.w0 ∧ Good Ex.w0 := ⟨Ex.startup, Ex.good⟩
+/-- … two clients are live, one idle, one busy, none has quit, and their streams are spread over history, log and buffer -/
+example : (runX Ex.w0 Ex.run).clients.map (fun c => (c.id, c.fd, c.quit, c.cmd.isSome)) = [(1, 1000, false, false), (2, 1001, false, true)] ∧
+    histOf Ex.w0 Ex.run 1000 = bstr "001 2\r\npowerman> " ∧ histOf Ex.w0 Ex.run 1001 = [] ∧
+    written (runX Ex.w0 Ex.run).sys 1001 = bstr "001 2\r\n" ∧
+    (runX Ex.w0 Ex.run).clients.map (·.toBuf) = [[], bstr "powerman> 208 Command in progress\r\n208 Command in progress\r\n"] := by
+  decide +kernel
+example : ∀ c ∈ (runX Ex.w0 Ex.run).clients, ∃ items, streamOf Ex.w0 Ex.run c = render items ∧ wfStream items = true ∧
+    (c.quit = false → strictStream items = true) ∧ AtPrompt c items ∧ (∀ i ∈ items, i.clean = true) ∧ CmdClean c :=
+  fun c hc => C15_run_clean Ex.w0 Ex.startup Ex.good Ex.run c hc
+
+/-- a run through the device phase (`IsolationProof.Two`): both clients ask `status a1`; the device answers client 1's
+    action, the regex answers of pass 4 make `expect` and `setplugstate` succeed: client 1 gets its final reply and the
+    prompt and is idle again, client 2 still waits (one action queued, `pending = 1`) -/
+example : (runX Ex.w0 Ex.run2).clients.map (fun c => (c.id, c.cmd.isSome, queued (runX Ex.w0 Ex.run2).devs c.id, pend c)) =
+      [(1, false, 0, 0), (2, true, 1, 1)] ∧
+    (runX Ex.w0 Ex.run2).clients.map (streamOf Ex.w0 Ex.run2) =
+      [bstr "001 2\r\npowerman> 302 on:      a1\r\n302 off:     \r\n302 unknown: \r\n103 Query complete\r\npowerman> ",
+       bstr "001 2\r\npowerman> "] := by
+  decide +kernel
+
+/-- **The last words of a client that is gone.**  For a descriptor that was handed out (`1000 ≤ fd < 1000 + nacc`; numbers
+    are not reused) and belongs to no live client, everything that was ever written to it is the beginning of a stream
+    satisfying the per-client invariant for the record `c` the client had when it was destroyed; `rest` is what it had
+    queued but was never sent.  (So the `101 Goodbye` flushed by `quit`, and whatever went out before a hang-up, obeys the
+    grammar too; and with `Good` the lines are clean.) -/
+theorem C15_run_departed (cl : Prop) (w0 : W) (hs : Startup w0) (hg : cl → Good w0) (ss : List Step) (fd : Nat) (h1 : 1000 ≤ fd)
+    (h2 : fd < 1000 + (runX w0 ss).nacc) (h3 : ∀ c ∈ (runX w0 ss).clients, c.fd ≠ fd) :
+    ∃ (c : Cli) (rest : Bytes) (items : List Item), writtenOf w0 ss fd ++ rest = render items ∧ wfStream items = true ∧
+      (c.quit = false → strictStream items = true) ∧ (cl → ∀ i ∈ items, i.clean = true) := by
+  obtain ⟨c, rest, items, e, ⟨s, h1, _⟩, h2, _, h4⟩ := departed_run cl w0 hs hg ss fd h1 h2 h3
+  exact ⟨c, rest, items, e, by simp [wfStream, h1], fun hq => by simp [strictStream, h2 hq],
+    fun hcl i hi => ((h4 hcl).1 i hi).2 replaceClean⟩
+
+/-- client 1 sends `nodes`, `quit`, `nodes` in one read: the banner, the reply, `101 Goodbye` are written (the descriptor
+    is made blocking), the client is destroyed in the same pass; the reply to the second `nodes` is never sent -/
+example : (runX Ex.w0 [([], Ex.p1), ([], Ex.pq)]).clients = [] ∧ (runX Ex.w0 [([], Ex.p1), ([], Ex.pq)]).nacc = 1 ∧
+    writtenOf Ex.w0 [([], Ex.p1), ([], Ex.pq)] 1000 = bstr "001 2\r\npowerman> 306 a1\r\n103 Query complete\r\npowerman> 101 Goodbye\r\n" := by
+  decide +kernel
+
+/-! ### the invariant, step by step
+
+`RunInv cl H w`: ids and descriptors of the live clients are pairwise distinct and below their counters, the ghost history
+`H` is empty for descriptors not handed out yet, the static data is `Good` (when `cl`), every client satisfies the
+per-client invariant `SInv` for `H c.fd ++ outOf w c`, so does what was written to the descriptor of every client that is
+gone (`Departed`), and no client has more actions queued than its command waits for (the ledger). -/
+
+/-- holds at start-up (there is no client) -/
+theorem C15_inv_init (cl : Prop) (w0 : W) (hs : Startup w0) (hg : cl → Good w0) : RunInv cl (fun _ => []) w0 :=
+  RunInv.init cl w0 hs.clients hs.acts hs.nextId hs.sys hs.nacc hg
+
+/-- the start-up conditions, and the cleanliness of the static data, survive `dev_initial_connect` (which queues login
+    actions and opens sockets): the runs above may start from the world after it -/
+theorem C15_startup_initial_connect (w0 : W) (hs : Startup w0) (now con soe : Nat) :
+    Startup (initialConnect w0 now con soe).1 ∧ (Good w0 → Good (initialConnect w0 now con soe).1) :=
+  ⟨hs.initialConnect now con soe, fun hg => hg.initialConnect now con soe⟩
+
+/-- `Good` holds of a world whose node list was built the way the configuration parser builds it (`Built`: pushes and
+    deletions from the empty list) from names without CR/LF, the other strings of the configuration containing none either.
+    (A quoted string of `powerman.conf` may contain `\r` and `\n` — the lexer has escapes for them —: such a node, alias,
+    device or plug name is what `Good` excludes.) -/
+theorem C15_good_of_config (w : W) (hv : cleanText w.cfg.version = true) (hb : Built w.cfg.nodes)
+    (hn : ∀ n ∈ expand w.cfg.nodes, cleanName n = true) (ha : ∀ a ∈ w.cfg.aliases, ∀ n ∈ a.2, cleanName n = true)
+    (hd : GoodDevs w.devs) (hs : ∀ p ∈ w.specs, cleanText p.2 = true) : Good w :=
+  Good.of_built w hv hb hn ha hd hs
+
+/-- kept by `accept`: the new client's stream is the `001` banner and the prompt, on a descriptor without history -/
+theorem C15_inv_accept (cl : Prop) (H : Hist) (w : W) (h : RunInv cl H w) (acc : Nat) : RunInv cl H (cliAccept w acc) :=
+  h.accept acc
+
+/-- kept by one client's turn in `cli_post_poll` (`_handle_read`, `_handle_write`, `_handle_input` with every request line,
+    the record written back — or the client destroyed and unlinked) -/
+theorem C15_inv_client_turn (cl : Prop) (H : Hist) (w : W) (h : RunInv cl H w) (envs : List FdEnv) (c0 : Cli) (hc0 : c0 ∈ w.clients) :
+    RunInv cl H (ClientPf.cliStep envs w c0) :=
+  h.cliStep envs c0 hc0
+
+/-- the callbacks of a device (`_act_finish`, telemetry, diagnostics, in any number and order) extend every client's
+    stream by an `Ext` step, the callback texts being clean (when `cl`) — provided every telemetry/diagnostic callback for a
+    client comes while `pending` still covers a completion to come (`q`, `Fwd`: the ledger, `C15_device_ledger`); `pending`
+    goes down by at most the number of completions delivered -/
+theorem C15_inv_callbacks (cl : Prop) (w : W) (name : Bytes) (outs : List Pm.Dev2.Out) (hu : UniqueIds w.clients)
+    (hname : cl → cleanText name = true) (houts : cl → OutsClean outs)
+    (q : Nat → Nat) (hq : ∀ x ∈ w.clients, q x.id ≤ pend x) (hfwd : ∀ x ∈ w.clients, Pm.Dev2.Fwd x.id (q x.id) outs) :
+    CliExt cl (fun cid => Pm.Dev2.fcount cid outs) w (applyOuts w name outs).1 :=
+  applyOuts_ext cl w name outs hu hname houts q hq hfwd
+
+/-- **The ledger, device half.**  Over one device's share of `dev_post_poll`, for every client id `cid ≠ 0`: the completions
+    reported plus the actions still queued do not exceed the actions queued before, and before every telemetry or
+    diagnostic callback for `cid` fewer completions for `cid` have been reported than it had actions queued: the text
+    belongs to an action that is still at the head of the queue. -/
+theorem C15_device_ledger (d : Pm.Dev2.Dev) (env : Pm.Dev2.Env) (o : Pm.Dev2.Oracle) (cid : Nat) (hc : cid ≠ 0) :
+    Pm.Dev2.fcount cid (Pm.Dev2.postPoll d env o).2.2.1 + Pm.Dev2.qcount cid (Pm.Dev2.postPoll d env o).1.dev.acts
+      ≤ Pm.Dev2.qcount cid d.acts ∧
+    Pm.Dev2.Fwd cid (Pm.Dev2.qcount cid d.acts) (Pm.Dev2.postPoll d env o).2.2.1 :=
+  Pm.Dev2.postPoll_ledger d env o cid hc
+
+/-- **The ledger over whole runs.**  In every world reachable from start-up, no client has more actions queued on the
+    devices than its command waits for (`pend c` = `pending` of the command, 0 when idle).  So an idle client has no
+    action queued anywhere, and no completion, telemetry or diagnostic callback is addressed to it: `3xx` lines appear only
+    while a command is in progress (or inside an immediate reply). -/
+theorem C15_ledger (w0 : W) (hs : Startup w0) (ss : List Step) (c : Cli) (hc : c ∈ (runX w0 ss).clients) :
+    queued (runX w0 ss).devs c.id ≤ pend c :=
+  ledger_run w0 hs ss c hc
+
+/-- and they are: whatever the device sends and the regex engine answers, the telemetry and diagnostic texts of one
+    device's share of `dev_post_poll` contain no CR/LF, the nodes wired to the device's plugs containing none -/
+theorem C15_device_callbacks_clean (d : Pm.Dev2.Dev) (env : Pm.Dev2.Env) (o : Pm.Dev2.Oracle) (hd : PlugsClean d) :
+    OutsClean (Pm.Dev2.postPoll d env o).2.2.1 :=
+  (postPoll_clean d env o hd).2
+
+/-- kept by one device's share of `dev_post_poll` with its callbacks delivered (`worldAt a rest`: the world while the
+    device phase has processed `a.devs` and still has `rest` to do) -/
+theorem C15_inv_device_turn (cl : Prop) (H : Hist) (p : PassIn) (a : DevAcc) (nd : Bytes × Pm.Dev2.Dev) (rest : List (Bytes × Pm.Dev2.Dev))
+    (h : RunInv cl H (Isolation.worldAt a (nd :: rest))) : RunInv cl H (Isolation.worldAt (devPass p a nd) rest) :=
+  h.ofDevPass p a nd rest
+
+/-- kept by a whole pass of the daemon loop; the history takes in the log the pass discards -/
+theorem C15_inv_pass (cl : Prop) (H : Hist) (w : W) (h : RunInv cl H w) (p : PassIn) :
+    RunInv cl (histNext H w) (daemonPass w p).1 :=
+  h.ofDaemonPass p
+
+/-- … also when regex answers are supplied before the pass -/
+theorem C15_inv_step (cl : Prop) (H : Hist) (w : W) (h : RunInv cl H w) (st : Step) : RunInv cl (histNext H w) (passX w st) :=
+  h.passX st
+
+/-! ### the alphabet of the hostlist mirror, and of a request -/
+
+/-- `hostlist_ranged_string` adds digits and `[ ] , -` to the stored prefixes: no CR/LF unless a prefix has one -/
+theorem C15_ranged_string_clean (hl : Hostlist) (h : HLClean hl) : cleanName (rangedString hl) = true :=
+  rangedString_clean hl h
+
+/-- `hostlist_sort` keeps a list clean (it stands for the same names) -/
+theorem C15_sort_clean (hl hl' : Hostlist) (hwf : HWFS hl) (hc : HLClean hl) (h : sortHL hl = .ok hl') : HLClean hl' :=
+  sortHL_clean hl hl' hwf hc h
+
+/-- the argument `sscanf("%s")` cuts out of a request line contains no white space, in particular no CR/LF; and the names
+    `hostlist_create` makes of it are clean -/
+theorem C15_request_names_clean (kw s a : Bytes) (hl : Hostlist) (h : scan kw s = some a) (hc : createR (toChars a) = .ok hl) :
+    cleanText a = true ∧ ∀ n ∈ expand hl, cleanName n = true :=
+  ⟨scan_clean kw s a h, expand_clean hl (createR_scan_clean kw s a hl h hc)⟩
+
+example : scan kwOn (bstr "on t[1-2]\rx") = some (bstr "t[1-2]") := by decide +kernel
+
+/-- the `302`/`303` lines of a final reply are clean when the target names are (whatever the devices reported) -/
+theorem C15_final_reply_clean (ex : Bool) (k : CmdC) (infos : List Item) (h : finalInfos ex k = some infos)
+    (hn : ∀ n ∈ k.names, cleanName n = true) : ∀ i ∈ infos, i.clean = true :=
+  finalInfos_clean ex k infos h hn
+
+/-- One request line, with the texts known: the process is gone (sort assertion), or the line is answered
+    `3xx* terminal [prompt]` — `101` only with `quit` set, `208` only with a command in progress, and all lines clean if the
+    static data is —, or a command is installed whose target names are clean; the static data stays clean. -/
+theorem C15_request (cl : Prop) (w : W) (c : Cli) (line : Bytes) : LineOut cl w c (parseLine w c line) :=
+  parseLine_out cl w c line
 
 end Pm.Props.C15
